@@ -8,6 +8,7 @@ from .core import *  # noqa
 from .core import _NOCONST
 from .interp import VEmptyList, VEmptySet, TOptObj, TDictRec, Interp, SpecUndef
 from . import frontend
+from . import jsonmodel as JM
 
 
 # =============================================================== operators
@@ -631,6 +632,14 @@ def get_attribute(I, o, name, default=_NOCONST):
         r = fsmodel.path_attr(I, o, name)
         if r is not None:
             return r
+    elif isinstance(o, JM.VJson):
+        if name in MAP_METHODS:
+            # dict methods on a dynamically typed value: its dict content (the caller has checked isinstance(v, dict))
+            return VFunc("bmethod", name, selfv=o.as_map(I))
+    elif hasattr(o, "get_attr"):
+        r = o.get_attr(I, name)
+        if r is not None:
+            return r
     elif isinstance(o, VFunc):
         if name == "__name__":
             return VStr(o.name)
@@ -771,7 +780,8 @@ def call_contract(I, c, f, args, kwargs):
         for cls, cond in c.raises_list():
             b = I.path.fresh("raised_%s_%s" % (c.short.replace(".", "_"), cls), z3.BoolSort())
             if cond is not None:
-                I.path.assume(z3.Implies(b, I.eval_spec(cond, env)))
+                # the raise condition speaks about the state at the call (before `modifies` was havoc'd)
+                I.path.assume(z3.Implies(b, I.eval_spec(cond, snap)))
             if I.path.branch(b):
                 for nm, src in c.ensures_exc:
                     I.path.assume(I.eval_spec(src, env))
@@ -934,6 +944,8 @@ def bi_int(I, args, kw):
     v = I.force(args[0]) if not I.spec else args[0]
     if isinstance(v, VInt):
         return v
+    if isinstance(v, JM.VJson):
+        return JM.json_int(I, v)
     if isinstance(v, VBool):
         return VInt(to_int(v))
     if isinstance(v, VReal):
@@ -1098,6 +1110,8 @@ def bi_isinstance(I, args, kw):
     v = I.force(args[0])
     tv = args[1]
     names = [x.name for x in tv.items] if isinstance(tv, VTuple) else [tv.name]
+    if isinstance(v, JM.VJson):
+        return VBool(JM.json_isinstance(I, v, names))
     return VBool(any(_isinst(I, v, nm) for nm in names))
 
 
@@ -1419,17 +1433,29 @@ def bi_round(I, args, kw):
 
 
 def bi_sum(I, args, kw):
-    """sum(xs) over a list of ints/floats: an uninterpreted function of the list (only equal lists give equal sums)"""
-    v = I.force(args[0]) if not I.spec else args[0]
-    if isinstance(v, VEmptyList) and len(args) == 1:
+    """sum(xs) over a list of ints/floats: an uninterpreted deterministic function of the list; the only facts
+    assumed are sum([]) == 0 and non-negative summands => non-negative sum"""
+    v = args[0]
+    if len(args) > 1 or kw:
+        raise Unsupported("sum(xs, start)")
+    if isinstance(v, VEmptyList):
         return VInt(0)
-    if isinstance(v, VSeq) and len(args) == 1 and (v.et is TInt or v.et is TReal):
-        t = v.t
-        rs = z3.IntSort() if v.et is TInt else z3.RealSort()
-        f = z3.Function("seq_sum_" + ("int" if v.et is TInt else "real"), t.sort(), rs)
-        I.ver.note_assumption("sum(list) is an uninterpreted function of the list")
-        return (VInt if v.et is TInt else VReal)(f(unwrap(v, t)))
-    raise Unsupported("sum()")
+    if isinstance(v, VTuple):
+        cur = VInt(0)
+        for x in v.items:
+            cur = binop(I, ast.Add(), cur, x)
+        return cur
+    if isinstance(v, VSeq) and (v.et is TInt or v.et is TReal):
+        t = TList(v.et)
+        f = z3.Function("seq_sum_" + v.et.name, t.sort(), v.et.sort())
+        r = f(unwrap(VSeq(v.arr, v.n, v.et, "list"), t))
+        i = z3.Int(I.path.fresh_name("sm_i"))
+        I.path.assume(z3.Implies(v.n == 0, r == 0))
+        I.path.assume(z3.Implies(z3.ForAll([i], z3.Implies(z3.And(0 <= i, i < v.n), z3.Select(v.arr, i) >= 0)), r >= 0))
+        I.ver.note_assumption("sum(list) is an uninterpreted function of the list with sum([])==0 and "
+                              "non-negative summands => non-negative sum")
+        return v.et.wrap(r)
+    raise Unsupported("sum() of %s" % type(v).__name__)
 
 
 def bi_any_all(is_any):
@@ -1598,8 +1624,72 @@ def gh_map_set_all(I, args, kw):
     return VNone()
 
 
+def sp_map_put(I, args, kw):
+    """map_put(m, k, v) (spec): the map m with m[k] = v  -- a new value, m is not changed"""
+    m, k, v = args
+    if not isinstance(m, VMap) or m.order is not None:
+        raise Unsupported("map_put on %s" % type(m).__name__)
+    kk = unwrap(k, m.kt)
+    was = z3.Select(m.dom, kk)
+    return VMap(z3.Store(m.dom, kk, z3.BoolVal(True)), z3.Store(m.val, kk, unwrap(v, m.vt)),
+                m.card + z3.If(was, 0, 1), m.kt, m.vt)
+
+
+def sp_map_del(I, args, kw):
+    """map_del(m, k) (spec): the map m without key k (m itself when k is absent)"""
+    m, k = args
+    if not isinstance(m, VMap) or m.order is not None:
+        raise Unsupported("map_del on %s" % type(m).__name__)
+    kk = unwrap(k, m.kt)
+    was = z3.Select(m.dom, kk)
+    return VMap(z3.Store(m.dom, kk, z3.BoolVal(False)), m.val, m.card - z3.If(was, 1, 0), m.kt, m.vt)
+
+
+def sp_perm_of(I, args, kw):
+    """perm_of(a, b) (spec): list a is a permutation of list b, i.e. there is a bijection sg on 0..len-1 with
+    a[i] == b[sg(i)].  Proving it needs a witness: the index functions attached by sorted()/list.sort() to their
+    result (python-side attribute `perm`); without a witness the clause is an unconstrained boolean (unprovable).
+    When assumed, fresh index functions are introduced."""
+    a, b = args
+    if isinstance(a, VEmptyList) or isinstance(b, VEmptyList):
+        o = b if isinstance(a, VEmptyList) else a
+        return VBool(z3.BoolVal(True) if isinstance(o, VEmptyList) else o.n == 0)
+    if not (isinstance(a, VSeq) and isinstance(b, VSeq) and a.et == b.et):
+        raise Unsupported("perm_of arguments")
+    p = I.path
+    w = getattr(a, "perm", None)
+    if w is not None:
+        sg, sgi = w[0], w[1]
+    elif I.assume_mode:
+        sg = z3.Function(p.fresh_name("perm"), z3.IntSort(), z3.IntSort())
+        sgi = z3.Function(p.fresh_name("permi"), z3.IntSort(), z3.IntSort())
+    else:
+        return VBool(I.undef_bool())
+    i, j = z3.Ints("pm_i pm_j")
+    n = a.n
+    ea = lambda x: z3.Select(a.arr, x)      # element equality = equality of the encoded values
+    eb = lambda x: z3.Select(b.arr, x)
+    return VBool(z3.And(
+        a.n == b.n,
+        z3.ForAll([i], z3.Implies(z3.And(0 <= i, i < n), z3.And(0 <= sg(i), sg(i) < n, sgi(sg(i)) == i, ea(i) == eb(sg(i)))),
+                  patterns=[sg(i)]),
+        z3.ForAll([j], z3.Implies(z3.And(0 <= j, j < n), z3.And(0 <= sgi(j), sgi(j) < n, sg(sgi(j)) == j, ea(sgi(j)) == eb(j))),
+                  patterns=[sgi(j)])))
+
+
+def sp_enc_eq(I, args, kw):
+    """enc_eq(a, b) (spec): equality of the *encoded* values (one z3 equality; for records/containers this is
+    stronger than the extensional `==` / seq_eq and free of nested quantifiers)"""
+    a, b = args
+    if isinstance(a, VUndef) or isinstance(b, VUndef):
+        return VBool(I.undef_bool())
+    t = typeof(a)
+    return VBool(unwrap(a, t) == unwrap(b, t))
+
+
 BUILTIN_FUNCS = {
     "choose": gh_choose, "map_set_all": gh_map_set_all,
+    "map_put": sp_map_put, "map_del": sp_map_del, "perm_of": sp_perm_of, "enc_eq": sp_enc_eq,
     "lemma_pigeonhole": gh_lemma_pigeonhole, "int_parses": sp_int_parses, "int_value": sp_int_value,
     "len": bi_len, "int": bi_int, "float": bi_float, "bool": bi_bool, "str": bi_str, "abs": bi_abs,
     "min": bi_min, "max": bi_max, "isinstance": bi_isinstance, "hasattr": bi_hasattr, "getattr": bi_getattr,
@@ -1608,6 +1698,8 @@ BUILTIN_FUNCS = {
     "round": bi_round, "sum": bi_sum, "any": bi_any_all(True), "all": bi_any_all(False), "id": bi_id,
     "hash": bi_hash, "object": bi_object, "type": bi_type, "print": bi_print, "zip": bi_zip, "super": bi_super,
     "deque": bi_deque, "OrderedDict": None, "open": bi_open, "fs_key": sp_fs_key,
+    "fs_name_of": lambda I, a, k: __import__("pyvc.fsmodel", fromlist=["x"]).sp_fs_name_of(I, a, k),
+    "fs_temp_name": lambda I, a, k: __import__("pyvc.fsmodel", fromlist=["x"]).sp_fs_temp_name(I, a, k),
 }
 BUILTIN_TYPES = {"int": bi_int, "float": bi_float, "bool": bi_bool, "str": bi_str, "list": bi_list,
                  "tuple": bi_tuple, "dict": bi_dict, "set": bi_set, "object": bi_object, "deque": bi_deque}
@@ -1615,9 +1707,18 @@ TYPE_NAMES = {"int", "float", "bool", "str", "list", "tuple", "dict", "set", "ob
               "Mapping", "MutableMapping", "Sequence", "deque", "OrderedDict", "frozenset"}
 
 
-def builtin_name(name):
+def builtin_name(name, I=None):
     if name in TYPE_NAMES:
         return VClass(name)
+    if name == "open" and I is not None:
+        from . import externals as X0
+        if X0._uses_fsmodel(I.ver):
+            return VFunc("builtin", name, impl=BUILTIN_FUNCS[name])
+    if name in JM.SPEC_FUNCS:
+        return VFunc("builtin", name, impl=JM.SPEC_FUNCS[name])
+    from . import externals as X
+    if name in X.SPEC_FUNCS:
+        return VFunc("builtin", name, impl=X.SPEC_FUNCS[name])
     if name in BUILTIN_FUNCS and BUILTIN_FUNCS[name] is not None:
         return VFunc("builtin", name, impl=BUILTIN_FUNCS[name])
     if name in EXC_PARENT:
@@ -1912,7 +2013,14 @@ def dictrec_method(I, d, name, args, kw):
             return default
         if not d.fields:
             return default
-        raise Unsupported("symbolic key lookup in literal dict")
+        # symbolic key into a literal table of scalars: if-then-else chain over the (distinct) literal keys
+        try:
+            cur = default
+            for k2 in reversed(list(d.fields)):
+                cur = I.ite(k.e == z3.StringVal(k2), d.fields[k2], cur)
+            return cur
+        except (Unsupported, TypeError):
+            raise Unsupported("symbolic key lookup in literal dict")
     if name in ("keys", "values", "items"):
         return VMapView(d, name)
     if name == "copy":
@@ -2021,8 +2129,14 @@ def str_method(I, s, name, args, kw):
         if not known and not isinstance(enc, VStr):
             raise Unsupported("str.encode with a non-string codec")
         utf8 = z3.BoolVal(True) if known else z3.Or(enc.e == z3.StringVal("utf-8"), enc.e == z3.StringVal("utf8"))
+        errs = args[1] if len(args) > 1 else kw.get("errors")
+        lenient = errs is not None and const_of(errs) in ("backslashreplace", "replace", "ignore", "surrogatepass",
+                                                          "xmlcharrefreplace", "namereplace")
+        if lenient:
+            I.ver.note_assumption("str.encode(..., errors=<lenient handler>) never raises UnicodeEncodeError; the bytes are "
+                                  "modelled as the text itself (exact except for unencodable characters)")
         if not I.spec:
-            if I.path.choice():
+            if not lenient and I.path.choice():
                 I.raise_exc("UnicodeEncodeError", "codec can't encode character")
             if not known:
                 if I.path.choice():
@@ -2179,6 +2293,24 @@ def dict_comprehension(I, n, env):
     src = _comp_source(I, gen, env)
     if isinstance(src, VEmptyList):
         return VDictRec({})
+    srcmap = src.m if isinstance(src, VMapView) and src.kind == "keys" else src
+    if isinstance(srcmap, VMap) and isinstance(gen.target, ast.Name) and isinstance(n.key, ast.Name) \
+            and n.key.id == gen.target.id and not gen.ifs:
+        # {k: f(k) for k in m} / m.keys(): exactly the map with m's domain and value f(k) at k
+        kc = z3.Const("dck_" + gen.target.id, srcmap.kt.sort())
+        saved = I.spec
+        I.spec = True
+        try:
+            e2 = Env(env, env.module)
+            e2.set(gen.target.id, srcmap.kt.wrap(kc))
+            vv = I.ev(n.value, e2)
+        finally:
+            I.spec = saved
+        vt = typeof(vv)
+        ve = unwrap(vv, vt)
+        uses_k = any(x.eq(kc) for x in _subterms(ve))
+        val = z3.Lambda([kc], ve) if uses_k else z3.K(srcmap.kt.sort(), ve)
+        return VMap(srcmap.dom, val, srcmap.card, srcmap.kt, vt)
     base = to_seq(I, src)
     if isinstance(base, VEmptyList):
         return VDictRec({})
@@ -2212,6 +2344,21 @@ def dict_comprehension(I, n, env):
     distinct = z3.ForAll([i, j], z3.Implies(z3.And(0 <= i, i < j, j < base.n), ke != sub(ke, j)))
     p.assume(z3.Implies(distinct, m.card == base.n))
     return m
+
+
+def _subterms(e):
+    seen = set()
+    st = [e]
+    while st:
+        x = st.pop()
+        if x.get_id() in seen:
+            continue
+        seen.add(x.get_id())
+        yield x
+        if z3.is_app(x):
+            st.extend(x.children())
+        elif z3.is_quantifier(x):
+            st.append(x.body())
 
 
 def set_comprehension(I, n, env):
